@@ -168,7 +168,9 @@ C09Prop == [][C09Step]_vars
 C10Step ==
   /\ (Op = "encrypt_subject_to_recipients" /\ OkStep) =>
         /\ Dg(Subject(Res)) = Dg(Subject(Src))
-        /\ \A i \in 1..Len(Arg(2)) :
+        (* a source that already carries a 'hasRecipient' for the same recipient with ANOTHER content key
+           leaves two sealed messages that open: which one wins is not fixed by the property *)
+        /\ \A i \in 1..Len(Arg(2)) : RecipientUnambiguous(Res, Arg(2)[i]) =>
               LET d == DecryptSubjectToRecipient(Res, Arg(2)[i]) IN
               IsOk(d) /\ Subject(Val(d)) = Subject(Src) /\ Dg(Val(d)) = Dg(Res)
         /\ \A r \in Recipients : (\A i \in 1..Len(Arg(2)) : Arg(2)[i] # r) => ~IsOk(DecryptSubjectToRecipient(Res, r))
@@ -304,11 +306,14 @@ C19Step ==
         LET a == AttachmentAssn(reg[Arg(2)], Arg(3), Arg(4)) IN
         /\ ValidAttachment(a)
         /\ AttVendor(a) = Arg(3) /\ AttConform(a) = Arg(4) /\ Subject(a[3])[2] = reg[Arg(2)]
-        /\ (\A x \in AssertionsWithPredicate(Res, KV(KvAttachment)) : ValidAttachment(x)) =>
+        (* retrievable - unless the same assertion was already there in obscured form, in which case
+           add_assertion's digest check absorbs the new one (C07) and nothing was added *)
+        /\ ((\A x \in AssertionsWithPredicate(Res, KV(KvAttachment)) : ValidAttachment(x))
+             /\ ~\E x \in Assertions(Src) : Dg(x) = Dg(a) /\ x # a) =>
               \E y \in Val(Attachments(Res, Arg(3), Arg(4))) : Dg(y) = Dg(a)
   /\ (Op = "add_bad_attachment" /\ OkStep) => ~IsOk(Attachments(Res, NoStr, NoStr))
   /\ (Op = "add_type" /\ OkStep) =>
-        /\ HasType(Res, Arg(2))
+        /\ (~\E x \in Assertions(Src) : Dg(x) = Dg(Assn(KV(KvIsA), Arg(2))) /\ x # Assn(KV(KvIsA), Arg(2))) => HasType(Res, Arg(2))
         /\ \A t \in TypeVals : (Dg(t) # Dg(Arg(2))) => (HasType(Res, t) <=> HasType(Src, t))
 C19Prop == [][C19Step]_vars
 
